@@ -185,6 +185,17 @@ def check_files(mtjs):
         if probs:
             bad('count-conservation', 'grammaroutput.lopar', '%s [mode %r]' % ('; '.join(probs[:4]), cfg),
                 'counts are not conserved in the written LoPar grammar')
+        # "... plus its occurrences as a tree root": the .start file carries the root counts
+        try:
+            starts = c09.decode_counts(c09.read(dest + '.start', 'utf-8'))
+        except c09.Bad as e:
+            bad('malformed-file', 'grammaroutput.lopar', '.start: %s' % e, 'LoPar start file malformed')
+            continue
+        rhs_syms = set(x for f in W for x in f[1:])
+        want = {s: c for s, c in roots.items() if s not in rhs_syms}
+        if starts != want:
+            bad('root-counts', 'grammaroutput.lopar', '.start has %r, the treebank has the roots %r [mode %r]' % (starts, want, cfg),
+                'the start-symbol counts differ from the number of trees with that root')
     return out
 
 
